@@ -16,8 +16,12 @@ from pbmon.gen import pop
 PROPERTY = "C08"
 NSHARDS = {"quick": 6, "thorough": 16}
 CLAUSES = {"C08.reseed": 400, "C08.process": 40, "C08.explicit.depends": 150, "C08.explicit.global": 150}
-RULE = ("programs = sequences of 3-15 stochastic API calls (7 mating protocols, G_E phenotyping, 5 cross-configuration samplers, 4 "
-        "sampling utilities, prng.spawn, hill-climber and GA optimisers, coancestry jitter, expected-maximum-BV matrix) on a generated "
+HOOKS_REQUIRED = ["explicit-generator call preceded by a larger call of the same component"]
+RULE = ("programs = sequences of 3-15 stochastic API calls (7 mating protocols with scalar and per-cross count arrays, G_E phenotyping "
+        "with scalar and per-environment designs, 5 cross-configuration samplers, 4 sampling utilities, the six dense_*/mat_* meiosis "
+        "helpers, prng.spawn, hill-climber and GA optimisers, coancestry jitter, expected-maximum-BV matrix with scalar and per-taxon "
+        "counts) on a generated population; explicit-generator runs hand the same generator to two consecutive calls and compare "
+        "both outputs and the generator's continuation, the second run after a larger call of the same component with another generator; "
         "population; executed twice in one process after seed(s) with different prefixes (raw random/numpy draws, other programs), in two "
         "fresh interpreters with different PYTHONHASHSEED, and per component with equal-state explicit generators under differently "
         "seeded global streams.  Outputs are compared as bit-level digests call by call; optimisers also by the sequence of decisions "
@@ -31,6 +35,9 @@ VERIF = os.path.dirname(os.path.dirname(os.path.dirname(os.path.abspath(__file__
 MATE = ["SelfCross", "TwoWayCross", "TwoWayDHCross", "ThreeWayCross", "ThreeWayDHCross", "FourWayCross", "FourWayDHCross"]
 CFGS = ["SubsetSelectionConfiguration", "RealSelectionConfiguration", "IntegerSelectionConfiguration", "BinarySelectionConfiguration",
         "SubsetMateSelectionConfiguration"]
+HELPERS = {"dense_meiosis": ("pybrops.core.util.mate", "dense_meiosis"), "dense_dh": ("pybrops.core.util.mate", "dense_dh"),
+           "dense_cross": ("pybrops.core.util.mate", "dense_cross"), "mat_meiosis": ("pybrops.breed.prot.mate.util", "mat_meiosis"),
+           "mat_dh": ("pybrops.breed.prot.mate.util", "mat_dh"), "mat_mate": ("pybrops.breed.prot.mate.util", "mat_mate")}
 GAS = ["SubsetGeneticAlgorithm", "RealGeneticAlgorithm", "IntegerGeneticAlgorithm", "BinaryGeneticAlgorithm", "NSGA2SubsetGeneticAlgorithm",
        "NSGA2RealGeneticAlgorithm", "NSGA2IntegerGeneticAlgorithm", "NSGA2BinaryGeneticAlgorithm", "NSGA3SubsetGeneticAlgorithm",
        "NSGA2MemeticSubsetGeneticAlgorithm:NSGA2SteepestDescentSubsetGeneticAlgorithm",
@@ -118,8 +125,9 @@ def enc_of(name):
     return "Subset"
 
 
-def component(name):
-    """callable(world, rng) -> output; rng None = library global generator."""
+def component(name, big=False):
+    """callable(world, rng) -> output; rng None = library global generator.  ``big``: the same component with a larger request
+    (more progeny / gametes / draws) - used for the calls that make up the interpreter history before a judged call."""
     if "@" in name and not name.startswith("SteepestDescent"):
         base, variant = name.split("@")
 
@@ -130,12 +138,25 @@ def component(name):
             xc = numpy.array([[(i + c) % 8 for i in range(o.nparent)] for c in range(2)])
             return o.mate(w.pg, xc, 2, 2, nself=1)
         return f
-    if name in MATE:
-        def f(w, rng, _n=name):
+    if name in MATE or name.split("/")[0] in MATE:
+        def f(w, rng, _n=name.split("/")[0], _arr=name.endswith("/per-cross counts")):
             cls = getattr(importlib.import_module("pybrops.breed.prot.mate." + _n), _n)
             P = cls(rng=rng)
             xc = numpy.array([[(i + c) % 8 for i in range(P.nparent)] for c in range(2)])
-            return P.mate(w.pg, xc, 2, 2, nself=1)
+            if _arr:      # per-cross count arrays, unequal entries
+                return P.mate(w.pg, xc, numpy.array([1, 3 if big else 2]), numpy.array([7 if big else 3, 1]), nself=1)
+            return P.mate(w.pg, xc, 2, 9 if big else 2, nself=1)
+        return f
+    if name in HELPERS:
+        def f(w, rng, _n=name):
+            import pybrops.core.random.prng as prng
+            F = getattr(importlib.import_module(HELPERS[_n][0]), HELPERS[_n][1])
+            r_ = prng.global_prng if rng is None else rng
+            geno = w.pg.mat; xo = w.pg.vrnt_xoprob
+            sel = numpy.arange(37 if big else 5) % 8
+            if HELPERS[_n][1] in ("dense_cross", "mat_mate"):
+                return F(geno, geno, sel, (sel + 3) % 8, xo, r_)
+            return F(geno, sel, xo, r_)
         return f
     if name == "G_E_Phenotyping":
         def f(w, rng):
@@ -157,9 +178,9 @@ def component(name):
             return cls(4, 2, 1, 1, w.pg, numpy.array([0, 2, 3]), xmap, rng).sample_xconfig(True)
         return f
     if name == "sus":
-        return lambda w, rng: _samp().stochastic_universal_sampling(numpy.arange(6), w.w, 9, rng)
+        return lambda w, rng: _samp().stochastic_universal_sampling(numpy.arange(6), w.w, 40 if big else 9, rng)
     if name == "tiled_choice":
-        return lambda w, rng: _samp().tiled_choice(numpy.arange(5), (3, 4), False, None, rng)
+        return lambda w, rng: _samp().tiled_choice(numpy.arange(5), (9, 4) if big else (3, 4), False, None, rng)
     if name == "axis_shuffle":
         def f(w, rng):
             a = numpy.arange(24).reshape(4, 6); _samp().axis_shuffle(a, 0, rng); return a
@@ -210,6 +231,16 @@ def component(name):
             from pybrops.model.embvmat.DenseExpectedMaximumBreedingValueMatrix import DenseExpectedMaximumBreedingValueMatrix as E
             return E.from_gmod(w.mod, w.pg, 3, 2)
         return f
+    if name == "EMBV/per-taxon counts":
+        def f(w, rng):
+            from pybrops.model.embvmat.DenseExpectedMaximumBreedingValueMatrix import DenseExpectedMaximumBreedingValueMatrix as E
+            return E.from_gmod(w.mod, w.pg, numpy.array([3, 1, 2, 4, 2, 1, 3, 2]), numpy.array([2, 5, 3, 1, 2, 4, 1, 3]))
+        return f
+    if name == "G_E_Phenotyping/per-environment replicates":
+        def f(w, rng):
+            from pybrops.breed.prot.pt.G_E_Phenotyping import G_E_Phenotyping
+            return G_E_Phenotyping(w.mod, 3, numpy.array([1, 3, 2]), numpy.array([1.0, 0.0]), numpy.array([0.5, 0.25]), numpy.array([1.0, 2.0]), rng=rng).phenotype(w.pg)
+        return f
     raise KeyError(name)
 
 
@@ -218,13 +249,15 @@ def _samp():
     return S
 
 
-ACCEPT_RNG = MATE + ["G_E_Phenotyping"] + CFGS + ["sus", "tiled_choice", "axis_shuffle", "outcross_shuffle", "SteepestDescentSubsetHillClimber"] + GAS
+VARIANTS = [m + "/per-cross counts" for m in MATE] + ["G_E_Phenotyping/per-environment replicates"]
+ACCEPT_RNG = MATE + ["G_E_Phenotyping"] + CFGS + ["sus", "tiled_choice", "axis_shuffle", "outcross_shuffle", "SteepestDescentSubsetHillClimber"] + GAS + \
+    list(HELPERS) + VARIANTS
 # copy.deepcopy is only driven for classes that declare their own __deepcopy__ (G_E_Phenotyping shares its generator with the copy);
 # a default deep copy of a mating protocol clones the generator object, and whether such a clone must follow later re-seeding
 # is not something the property states (counted in ASSUME, not asserted)
 PREBUILT = [m + "@" + v for m in ("TwoWayCross", "FourWayDHCross", "SelfCross") for v in ("orig", "copy")] + \
            ["G_E_Phenotyping@" + v for v in ("orig", "copy", "deepcopy", "deepcopy")]
-GLOBAL_ONLY = ["spawn", "apply_jitter", "EMBV"] + PREBUILT + ["SteepestDescentSubsetHillClimber@shared-problem"] * 3
+GLOBAL_ONLY = ["spawn", "apply_jitter", "EMBV", "EMBV/per-taxon counts", "EMBV/per-taxon counts"] + PREBUILT + ["SteepestDescentSubsetHillClimber@shared-problem"] * 3
 ALL = ACCEPT_RNG + GLOBAL_ONLY
 
 
@@ -234,6 +267,14 @@ def site_of(name):
     if "@" in name:
         b, v = name.split("@")
         return "%s.%s via %s made before seeding" % (b, "phenotype" if b == "G_E_Phenotyping" else "mate", {"orig": "object", "copy": "copy.copy", "deepcopy": "copy.deepcopy"}[v])
+    if name in HELPERS:
+        return HELPERS[name][0].replace("pybrops.", "") + "." + HELPERS[name][1]
+    if name.split("/")[0] in MATE:
+        return name.split("/")[0] + ".mate"
+    if name.startswith("G_E_Phenotyping/"):
+        return "G_E_Phenotyping"
+    if name.startswith("EMBV"):
+        return "EMBV"
     if name in MATE:
         return name + ".mate"
     if name in CFGS:
@@ -268,7 +309,7 @@ class Tap:
 
 def gen_program(g):
     n = int(g.integers(3, 16))
-    weights = numpy.array([3.0 if c in MATE else (0.6 if c in GAS else 2.0) for c in ALL]); weights /= weights.sum()
+    weights = numpy.array([3.0 if c in MATE else (0.6 if c in GAS else (1.0 if c in HELPERS or c in VARIANTS else 2.0)) for c in ALL]); weights /= weights.sum()
     return [str(x) for x in g.choice(ALL, n, p=weights)]
 
 
@@ -398,16 +439,29 @@ def case_explicit(ctx, c):
     ctx.case("explicit:" + name, name, k, kind)
     res = []
     untouched = []
-    for gs in (int(g.integers(2 ** 31)), int(g.integers(2 ** 31))):
+    for run, gs in enumerate((int(g.integers(2 ** 31)), int(g.integers(2 ** 31)))):
         prng.seed(gs)
         w = World(wseed)
+        # interpreter history before the judged calls: the two runs differ in the global seed AND in what the same component was
+        # asked to do earlier with other generators (nothing / a larger request on another population)
+        if run == 1 and name not in GAS:
+            try:
+                component(name, big=True)(World(wseed + 7), numpy.random.Generator(numpy.random.PCG64(k + 1)) if kind == "Generator" else numpy.random.RandomState(k + 1))
+                ctx.hook("explicit-generator call preceded by a larger call of the same component")
+            except Exception:
+                pass
         s0 = gstate()
         try:
-            r = component(name)(w, mk())
+            rng_ = mk()
+            r = component(name)(w, rng_)
+            u1 = gstate() == s0
+            # the same generator handed on to a second call: what the first call left in it is part of its result
+            r2 = component(name)(w, rng_) if name not in GAS else None
+            tail = rng_.random(3).tolist()
         except Exception as e:
             ctx.raised(site_of(name) + " (explicit rng)", e); return
-        untouched.append(gstate() == s0)
-        res.append(dig(r))
+        untouched.append(u1 and gstate() == s0)
+        res.append(dig((r, r2, tail)))
     site = site_of(name)
     ctx.check("C08.explicit.depends", res[0] == res[1], site, "result depends only on the supplied generator", kind if name not in GAS else "explicit generator",
               what="%s: same explicit generator state, different global seeds -> different outputs" % site,
